@@ -67,6 +67,29 @@ func c12RepeatRecipients(x ap.Item) {
 	})
 }
 
+// c12EmptyTags gives the language lists of up to four nodes a second entry and puts one entry under the empty tag.
+func c12EmptyTags(x ap.Item) {
+	n := 0
+	vocab.Walk(x, 0, func(path string, depth int, node reflect.Value) {
+		if !node.CanSet() || n >= 4 {
+			return
+		}
+		for _, f := range vocab.Fields(node.Type()) {
+			if f.Kind != vocab.KNLV {
+				continue
+			}
+			fv := node.Field(f.Index)
+			l := fv.Interface().(ap.NaturalLanguageValues)
+			if len(l) == 0 {
+				continue
+			}
+			n++
+			nl := append(append(ap.NaturalLanguageValues{}, l...), ap.LangRefValue{Ref: "", Value: ap.Content("under the empty tag")}, ap.LangRefValue{Ref: "de", Value: ap.Content("noch eins")})
+			fv.Set(reflect.ValueOf(nl))
+		}
+	})
+}
+
 // c12Twin is a deep copy of x with every language list and every item list of every node in reverse order.
 func c12Twin(x ap.Item) ap.Item {
 	y := vocab.CloneItem(x)
@@ -360,6 +383,11 @@ var c12Gen = rapid.Custom(func(t *rapid.T) ap.Item {
 	if rapid.IntRange(0, 2).Draw(t, "plant-repeated-recipients") == 0 {
 		c12RepeatRecipients(x)
 	}
+	// now and then a language list of several entries holds one under the empty tag (not the nil tag "-"): a spelling an encoder may
+	// want to normalise - in what it writes
+	if rapid.IntRange(0, 2).Draw(t, "plant-empty-tag") == 0 {
+		c12EmptyTags(x)
+	}
 	// a value that came out of the decoder (it may still share memory with whatever the decoder used): a later decode of an unrelated
 	// document, one of the operations below, must not change it
 	if rapid.IntRange(0, 3).Draw(t, "from-decoder") == 0 {
@@ -492,6 +520,9 @@ func c12ConcurrentValue(i int, seed int) ap.Item {
 		}
 		if i%3 == 1 {
 			c12RepeatRecipients(x)
+		}
+		if i%4 == 2 {
+			c12EmptyTags(x)
 		}
 		c12Spare(x)
 		return x
